@@ -342,6 +342,12 @@ class Linear(Domain):
             return NONLIN
         raise Incomplete('np.%s applied to a gradient-dependent value is not in the linearity table (%s)' % (name, norm(node)))
 
+    def dict_literal(self, I, keys, values, node):
+        # a table of gradient-independent entries is gradient independent (lookups / .get on it with such keys stay CONST)
+        if all(self.c(x) in (CONST, NONE) for x in list(keys) + list(values)):
+            return CONST
+        return self.top()
+
     def method(self, I, recv, name, args, kwargs, node):
         r = self.c(recv)
         cargs = [self.c(a) for a in args]
